@@ -7,6 +7,7 @@ import (
 	"path/filepath"
 	"sort"
 	"strings"
+	"unicode/utf8"
 )
 
 // Status of one obligation.
@@ -305,7 +306,11 @@ func (r *Result) Finish(verifDir string, known []KnownFinding, seed int64, wall 
 func oneLine(s string) string {
 	s = strings.ReplaceAll(s, "\n", " ")
 	if len(s) > 300 {
-		s = s[:300] + "…"
+		cut := 300
+		for cut > 0 && !utf8.RuneStart(s[cut]) {
+			cut-- // never split a multi-byte character: the line must stay valid UTF-8
+		}
+		s = s[:cut] + "…"
 	}
 	return s
 }
